@@ -20,6 +20,7 @@ type IndexLoop struct {
 	Stay   *ssa.BasicBlock // successor taken while the loop condition holds
 	Exit   *ssa.BasicBlock // successor taken when it fails
 	Shape  string
+	Yield  *ssa.Function // range-over-func loops: the synthetic body closure (Phi, Stay, Exit are nil)
 }
 
 // NaturalLoop returns the blocks of the natural loop with the given header.
@@ -229,7 +230,7 @@ func IndexLoops(fn *ssa.Function) []*IndexLoop {
 			out = append(out, l)
 		}
 	}
-	return out
+	return append(out, rangeFuncLoops(fn)...)
 }
 
 // CallsInLoop lists call instructions inside the loop body.
